@@ -170,6 +170,8 @@ class Scenario:
             self.split = reqs[0].raw.index(b"\r\n\r\n") + 4     # the complete header first, the body after the interim message
         self.poolfail = poolfail     # the connection's memory pool is too small on purpose: the reply is cut short
         self.readerr = readerr       # the content reader reports MHD_CONTENT_READER_END_WITH_ERROR mid-body: cut short + closed
+        # … or ends a known-size body early by MHD_CONTENT_READER_END_OF_STREAM (cbeos=): same, but the library reports COMPLETED_OK
+        self.readerr_code = "0" if any("cbeos=" in v for v in resps.values()) else "1"
 
     def script(self, faults=(), alloc_fail=None, count_allocs=False):
         L = ["case " + self.name, "cfg mode=%s spipe=1%s%s" % (self.mode, (" mem=%d" % self.mem) if self.mem else "",
@@ -224,6 +226,14 @@ def corpus(tier):
     S.append(Scenario("cb-err-chunked", {1: "kind=cb-unknown size=900 cbmax=400 cberr=500"}, [Req()], readerr=True))
     S.append(Scenario("cb-err-first", {1: "kind=cb-known size=300 cbmax=100 cberr=0"}, [Req()], readerr=True))
     S.append(Scenario("cb-err-http10", {1: "kind=cb-unknown size=900 cbmax=400 cberr=500"}, [Req(ver="1.0")], readerr=True))
+    # premature MHD_CONTENT_READER_END_OF_STREAM on a known-size, non-chunked reply (announced size not met): cut short,
+    # closed (never kept alive), completion once with COMPLETED_OK (the library's choice), a pipelined follower not served
+    S.append(Scenario("cb-eos-early-known", {1: "kind=cb-known size=900 cbmax=400 cbeos=500"}, [Req()], readerr=True))
+    S.append(Scenario("cb-eos-early-first", {1: "kind=cb-known size=300 cbmax=100 cbeos=0"}, [Req()], readerr=True))
+    S.append(Scenario("cb-eos-early-pipelined", {1: "kind=cb-known size=600 cbmax=250 cbeos=300", 2: "kind=static size=40"},
+                      [Req(beh="f=c l=r1"), Req(beh="f=c l=r2")], readerr=True,
+                      note="the second (pipelined) request must never be answered on this connection"))
+    S.append(Scenario("cb-eos-early-epoll", {1: "kind=cb-known size=900 cbmax=400 cbeos=500"}, [Req()], readerr=True, mode="epoll"))
     S.append(Scenario("cb-err-pipelined", {1: "kind=cb-unknown size=600 cbmax=250 cberr=300", 2: "kind=static size=40"},
                       [Req(beh="f=c l=r1"), Req(beh="f=c l=r2")], readerr=True,
                       note="the second (pipelined) request must never be answered"))
@@ -371,7 +381,8 @@ class CaseLog:
         self.uri_logs = 0
         self.completions = []    # (r or '?', code, line index) in log order
         self.resp_refs = []      # (rid, reference count, when) — 1 = only the application's own reference is left
-        self.reader_err = []     # indices of "reader … -> err" lines
+        self.reader_err = []     # indices of "reader … -> err" / "-> eos-early" lines
+        self.reader_eos_early = 0
         self.alloc_site = None   # (library function whose allocation failed, libc entry point)
         self.wedged = []         # spin reports of `settle`: send called round after round, no byte moved
         last_handler = None
@@ -431,8 +442,10 @@ class CaseLog:
             self.bad.append(ln)
         elif k == "reader" and ln.endswith("-> 0"):
             self.reader0.append(i)
-        elif k == "reader" and ln.endswith("-> err"):
+        elif k == "reader" and (ln.endswith("-> err") or ln.endswith("-> eos-early")):
             self.reader_err.append(i)
+            if ln.endswith("-> eos-early"):
+                self.reader_eos_early += 1
         elif k == "wedged":
             self.wedged.append(ln)
         elif k == "resp-ref":
@@ -695,8 +708,9 @@ def reference_content(sc, ref):
                 got, _ = dechunk(got)
             if not want.startswith(got) or len(got) >= len(want):
                 bad.append(("content reader error: the bytes sent before the error are not a strict prefix of the content", "%d bytes" % len(got)))
-        if [c for _, c, _ in ref.completions][:1] != ["1"]:
-            bad.append(("content reader error: completion code is not WITH_ERROR", str(ref.completions)))
+        if [c for _, c, _ in ref.completions][:1] != [sc.readerr_code]:
+            bad.append(("content reader error: completion code is not the expected one (WITH_ERROR; COMPLETED_OK for a premature END_OF_STREAM)",
+                        "expected %s, got %s" % (sc.readerr_code, ref.completions)))
         return bad
     for rep in reps:
         spec = resp_spec(sc, rep["req"])
@@ -802,9 +816,10 @@ def model_script(sc, ref, log):
         aware = 1 if log.uri_logs > rep["req"] else 0
         reuse = 0 if b"\r\nconnection: close\r\n" in rep["hdr"].lower() else 1
         stoperr = 1 if (rep["status"] >= 400 and (spec is None or malformed)) else 0
-        script.append("reply kind=%s hdr=%s body=%s iov=%s known=%d chunked=%d sendbody=%d footer=%s bufsz=%d wbsz=%d cbmax=%d fdoff=%d sf=%s tpc=0 aware=%d reuse=%d stoperr=%d"
+        script.append("reply kind=%s hdr=%s body=%s iov=%s known=%d chunked=%d sendbody=%d footer=%s bufsz=%d wbsz=%d cbmax=%d fdoff=%d sf=%s tpc=0 aware=%d reuse=%d stoperr=%d faileos=%d"
                       % (kind, hx(rep["hdr"]), hx(body), iov, known, 1 if rep.get("chunked") else 0, 0 if rep["head"] else 1,
-                         hx(footer), bufsz, wbsz, cbmax, fdoff, g[0]["sf"], aware, reuse, stoperr))
+                         hx(footer), bufsz, wbsz, cbmax, fdoff, g[0]["sf"], aware, reuse, stoperr,
+                         1 if (spec is not None and "cbeos" in spec) else 0))
         expect.append(None)
         for j, s in enumerate(g):
             nxt = g[j + 1]["idx"] if j + 1 < len(g) else (groups[gi][0]["idx"] if gi < len(groups) else len(log.lines))
@@ -922,7 +937,8 @@ class Spec:
                          "Mhd.C07.interim_delivered_prefix", "Mhd.C07.interim_transient_never_closes",
                          "Mhd.C07.interim_transient_delivers_all", "Mhd.C07.interim_fair_completes",
                          "Mhd.C07.interim_hard_error_closes", "Mhd.C07.exchange_delivered_prefix",
-                         "Mhd.C07.exchange_fair_delivers_all"]
+                         "Mhd.C07.exchange_fair_delivers_all", "Mhd.C07.reader_failure_closes",
+                         "Mhd.C07.truncated_reply_never_kept"]
     trusted_base = ["Lean 4 kernel", "axioms: propext, Classical.choice, Quot.sound at most (audited per theorem)",
                     "hand-written model lean/Mhd/Model/Send.lean + SendConn.lean + SendCont.lean (interim 100 Continue phase), tied to mhd_send.c / connection.c by this run's "
                     "call-by-call correspondence under fault injection",
@@ -1181,6 +1197,7 @@ class Spec:
                 k_ = "%s (%s)" % lg.alloc_site
                 stats.setdefault("alloc_sites", {})[k_] = stats.get("alloc_sites", {}).get(k_, 0) + 1
             stats["reader_errors"] = stats.get("reader_errors", 0) + len(lg.reader_err)
+            stats["reader_eos_early"] = stats.get("reader_eos_early", 0) + lg.reader_eos_early
             stats["resp_ref_checks"] = stats.get("resp_ref_checks", 0) + len(lg.resp_refs)
             stats["completions_seen"] = stats.get("completions_seen", 0) + len(lg.completions)
             if lg.closed_before_stop():
@@ -1265,6 +1282,7 @@ class Spec:
                "response_refcount_reads": stats.get("resp_ref_checks", 0),
                "completion_callbacks_seen": stats.get("completions_seen", 0),
                "content_reader_errors_fired": stats.get("reader_errors", 0),
+               "content_reader_premature_eos_fired": stats.get("reader_eos_early", 0),
                "alloc_failure_sites": dict(sorted(stats.get("alloc_sites", {}).items())),
                "alloc_failure_sites_note": "library function whose k-th allocation was made to fail (symbolised in-process), with the libc entry "
                                            "point; the library calls malloc and calloc only (no realloc; one strdup in postprocessor.c, not reachable here); "
